@@ -226,6 +226,13 @@ static int KSI_HighAvailabilityService_addRequest(KSI_HighAvailabilityService *h
 		res = addRes;
 		goto cleanup;
 	}
+	/* Cleanup the handle in case it has been added repeatedly. */
+	KSI_Utf8String_free(handle->errMsg);
+	handle->errMsg = NULL;
+	if (handle->respCtx_free) handle->respCtx_free(handle->respCtx);
+	handle->respCtx_free = NULL;
+	handle->respCtx = NULL;
+
 	handle->state = KSI_ASYNC_STATE_WAITING_FOR_RESPONSE;
 
 	res = KSI_OK;
